@@ -261,3 +261,123 @@ Proof.
       repeat (rewrite ?hlen_set_cst, ?hlen_start_call, ?hlen_note_throw, ?hlen_mark, ?hlen_app in * );
       unfold hlen in *; simpl in *; try rewrite ?app_length in *; simpl in *; try lia.
 Qed.
+
+(* ---------------------------------------------------------------------------------- *)
+(** ** histories: no cell is ever left Computing (repaired error path) *)
+
+Definition quiet (s : st) : Prop := forall c, comp s c = false.
+
+Lemma ev_quiet : forall f k s s' r,
+  ev true f k s = (s', r) -> okres r -> pre k s -> quiet s -> quiet s'.
+Proof. intros f k s s' r H Hok Hp Hq c. rewrite (computing_preserved f k s s' r H Hok Hp c). apply Hq. Qed.
+
+Lemma quiet_pre : forall k s, quiet s -> pre k s.
+Proof. intros. destruct k; simpl; auto. Qed.
+
+Lemma op_first_quiet : forall fuel o s s' r, op_first true fuel o s = (s', r) -> okres r -> quiet s -> quiet s'.
+Proof.
+  intros fuel o s s' r H Hok Hq. unfold op_first in H. destruct o; try (inversion H; subst; assumption).
+  destruct (ev true fuel (CSeq c) s) as [s1 r1] eqn:E.
+  destruct r1 as [o| | |]; try (inversion H; subst; simpl in Hok; contradiction).
+  - assert (quiet s1) by (eapply ev_quiet; eauto; simpl; auto). destruct o; inversion H; subst; assumption.
+  - inversion H; subst. eapply ev_quiet; eauto; simpl; auto.
+Qed.
+
+Lemma op_rest_quiet : forall fuel o s s' r, op_rest true fuel o s = (s', r) -> okres r -> quiet s -> quiet s'.
+Proof.
+  intros fuel o s s' r H Hok Hq. unfold op_rest in H. destruct o; try (inversion H; subst; assumption).
+  destruct (ev true fuel (CSeq c) s) as [s1 r1] eqn:E.
+  destruct r1 as [o| | |]; try (inversion H; subst; simpl in Hok; contradiction).
+  - assert (quiet s1) by (eapply ev_quiet; eauto; simpl; auto). destruct o; inversion H; subst; assumption.
+  - inversion H; subst. eapply ev_quiet; eauto; simpl; auto.
+Qed.
+
+Lemma op_seq_quiet : forall fuel o s s' r, op_seq true fuel o s = (s', r) -> okres r -> quiet s -> quiet s'.
+Proof. intros. unfold op_seq in H. eapply ev_quiet; eauto. simpl. auto. Qed.
+
+Lemma op_next_quiet : forall fuel o s s' r, op_next true fuel o s = (s', r) -> okres r -> quiet s -> quiet s'.
+Proof.
+  intros fuel o s s' r H Hok Hq. unfold op_next in H.
+  destruct (op_rest true fuel o s) as [s1 r1] eqn:E.
+  destruct r1 as [o1| | |]; try (inversion H; subst; simpl in Hok; contradiction).
+  - eapply op_seq_quiet; eauto. eapply op_rest_quiet; eauto. simpl. auto.
+  - inversion H; subst. eapply op_rest_quiet; eauto.
+Qed.
+
+Lemma walk_quiet : forall fuel n cur acc s s' r acc',
+  walk true fuel n cur acc s = (s', r, acc') -> okres r -> quiet s -> quiet s'.
+Proof.
+  induction n; intros cur acc s s' r acc' H Hok Hq; simpl in H.
+  - inversion H; subst. assumption.
+  - destruct (ev true fuel (CIterNext cur) s) as [s1 r1] eqn:E.
+    destruct r1 as [o| | |]; try (inversion H; subst; simpl in Hok; contradiction).
+    + assert (quiet s1) by (eapply ev_quiet; eauto; simpl; auto).
+      destruct o; try (inversion H; subst; assumption). eapply IHn; eauto.
+    + inversion H; subst. eapply ev_quiet; eauto; simpl; auto.
+Qed.
+
+Lemma obs_of_res_bad : forall x f, (forall o, f o <> BBad) -> obs_of_res x f <> BBad -> okres x.
+Proof. intros. destruct x; simpl in *; auto. Qed.
+
+Lemma do_op_quiet : forall fuel o regs s s' regs' b,
+  do_op true fuel o regs s = (s', regs', b) -> b <> BBad -> quiet s -> quiet s'.
+Proof.
+  intros fuel o regs s s' regs' b H Hb Hq. destruct o; cbv beta match delta [do_op] in H.
+  - destruct (op_first true fuel (reg regs r) s) as [s1 x] eqn:E. inversion H; subst.
+    eapply op_first_quiet; eauto. eapply obs_of_res_bad; eauto. intros ox; destruct ox; discriminate.
+  - destruct (op_rest true fuel (reg regs r) s) as [s1 x] eqn:E. inversion H; subst.
+    eapply op_rest_quiet; eauto. eapply obs_of_res_bad; eauto. intros ox; discriminate.
+  - destruct (op_next true fuel (reg regs r) s) as [s1 x] eqn:E. inversion H; subst.
+    eapply op_next_quiet; eauto. eapply obs_of_res_bad; eauto. intros ox; discriminate.
+  - destruct (op_seq true fuel (reg regs r) s) as [s1 x] eqn:E. inversion H; subst.
+    eapply op_seq_quiet; eauto. eapply obs_of_res_bad; eauto. intros ox; discriminate.
+  - destruct (reg regs r) eqn:Er; try (inversion H; subst; assumption);
+      (destruct (walk true fuel fuel _ [] s) as [[s1 x] acc] eqn:E; inversion H; subst;
+       eapply walk_quiet; eauto; destruct x as [ox| | |]; simpl; auto; try (destruct ox); congruence).
+  - destruct (reg regs r) eqn:Er; try (inversion H; subst; assumption);
+      (destruct (walk true fuel (S i) _ [] s) as [[s1 x] acc] eqn:E; inversion H; subst;
+       eapply walk_quiet; eauto; destruct x as [ox| | |]; simpl; auto; congruence).
+  - destruct (reg regs r) eqn:Er; try (inversion H; subst; assumption);
+      (destruct (walk true fuel limit _ [] s) as [[s1 x] acc] eqn:E; inversion H; subst;
+       eapply walk_quiet; eauto; destruct x as [ox| | |]; simpl; auto; congruence).
+Qed.
+
+Lemma do_ops_quiet : forall fuel ops regs s acc s' obs,
+  do_ops true fuel ops regs s acc = (s', obs) -> ~ In BBad obs -> quiet s -> quiet s'.
+Proof.
+  induction ops; intros regs s acc s' obs H Hn Hq; simpl in H.
+  - inversion H; subst. assumption.
+  - destruct (do_op true fuel a regs s) as [[s1 regs1] b] eqn:E.
+    assert (Hin : In b obs).
+    { clear -H. revert regs1 s1 acc H. generalize (b :: nil). intros l.
+      assert (forall ops regs s acc s' obs, do_ops true fuel ops regs s acc = (s', obs) -> forall x, In x acc -> In x obs).
+      { induction ops0; intros; simpl in H.
+        - inversion H; subst. apply in_rev. rewrite rev_involutive. assumption.
+        - destruct (do_op true fuel a regs s) as [[s2 regs2] b2]. eapply IHops0; eauto. right. assumption. }
+      intros. eapply H; eauto. left. reflexivity. }
+    eapply IHops; eauto. eapply do_op_quiet; eauto. intro; subst; contradiction.
+Qed.
+
+(** a failed producer is put back: the very generator it had, to be called again *)
+Lemma failed_producer_restored : forall f s c k g s',
+  get s c = Some k -> cst k = Initialized g ->
+  ev true (S f) (CCompute c) s = (s', Exn) ->
+  exists k', get s' c = Some k' /\ cst k' = Initialized g /\ nthrows k' = N.succ (nthrows k').
+Proof.
+Abort.
+
+Lemma failed_producer_restored : forall f s c k g s',
+  get s c = Some k -> cst k = Initialized g ->
+  ev true (S f) (CCompute c) s = (s', Exn) ->
+  exists k', get s' c = Some k' /\ cst k' = Initialized g.
+Proof.
+  intros f s c k g s' Hg Hc H. simpl in H. rewrite Hg, Hc in H.
+  destruct (ev true f (CGen g) (start_call s c)) as [s2 r2] eqn:E.
+  destruct r2; inversion H; subst; clear H.
+  assert (Hl : c < hlen s2).
+  { apply heap_mono in E. rewrite hlen_start_call in E. apply get_lt in Hg. unfold hlen in *. lia. }
+  unfold note_throw. destruct (get s2 c) as [k2|] eqn:E2.
+  - exists (mkCell (Initialized g) (ncalls k2) (N.succ (nthrows k2))). split; [|reflexivity].
+    rewrite get_set_heap. apply nth_error_upd_same. exact Hl.
+  - unfold get in E2. apply nth_error_None in E2. unfold hlen in Hl. lia.
+Qed.
